@@ -196,7 +196,11 @@ class GridSearch(BaseEstimator, MetaEstimatorMixin):
                 current_estimator = copy.deepcopy(self.estimator)
 
             oracle_call_start_time = time()
-            current_estimator.fit(X, y_reduction, **{self.sample_weight_name: weights})
+            if len(y_reduction_unique) == 1:
+                # the constant classifier does not depend on the weights, which may all be zero
+                current_estimator.fit(X, y_reduction)
+            else:
+                current_estimator.fit(X, y_reduction, **{self.sample_weight_name: weights})
             oracle_call_execution_time = time() - oracle_call_start_time
             logger.debug("Call to estimator complete")
 
